@@ -3,7 +3,9 @@
 From Coq Require Import String List NArith ZArith Bool.
 From J5V.lib Require Import Outcome Json.
 From J5V.model Require Import CodecTypes CodecDecScalar CodecDec CodecDecQuery.
+From J5V.model Require CodecDecTree.
 From J5V.proofs Require Import CodecDecProofs CodecDecQueryProofs JsonLexProofs.
+From J5V.proofs Require CodecDecStored CodecDecReorder CodecDecDenote CodecDecFull.
 Import ListNotations.
 Local Open Scope N_scope.
 
@@ -14,7 +16,7 @@ Local Open Scope N_scope.
    the same for URL-query decoding. *)
 Definition C06_json_statement : Prop :=
   forall orc e root bs,
-    is_panic (decode_bytes orc e root bs) = false /\ decode_bytes orc e root bs <> OutOfFuel.
+    is_panic (decode_document orc e root bs) = false /\ decode_document orc e root bs <> OutOfFuel.
 
 (* URL-query decoding: url.Values is a map, the loop visits the keys in an undefined order; the
    statement is for every list of (key, values) pairs, i.e. every order, with empty keys, dotted
@@ -33,8 +35,14 @@ Theorem C06_decode_tokens_total : forall orc e more_at_end root ts,
 Proof. exact decode_tokens_total. Qed.
 Print Assumptions C06_decode_tokens_total.
 
-(* JSON decoding, byte level *)
-Theorem C06_decode_bytes_total : C06_json_statement.
+(* JSON decoding, byte level: the whole call JSONToProto (descent + end-of-input check, fix 9f742f6) *)
+Theorem C06_decode_document_total : C06_json_statement.
+Proof. exact decode_document_total. Qed.
+Print Assumptions C06_decode_document_total.
+
+(* ... and its descent alone (decodeObject / decodeOneof on the root) *)
+Theorem C06_decode_bytes_total : forall orc e root bs,
+  is_panic (decode_bytes orc e root bs) = false /\ decode_bytes orc e root bs <> OutOfFuel.
 Proof. exact decode_bytes_total. Qed.
 Print Assumptions C06_decode_bytes_total.
 
@@ -44,7 +52,7 @@ Proof. exact decode_query_total. Qed.
 Print Assumptions C06_decode_query_total.
 
 Theorem C06_full : C06_full_statement.
-Proof. exact (conj decode_bytes_total decode_query_total). Qed.
+Proof. exact (conj decode_document_total decode_query_total). Qed.
 Print Assumptions C06_full.
 
 (* the bound in bytes: a document of n bytes has at most n tokens, the tokenizer model's own fuel of
@@ -79,6 +87,45 @@ Print Assumptions C06_map_set_guarded.
 Theorem C06_oneof_index_guarded : forall props m found constrain, is_panic (oneof_post props m found constrain) = false.
 Proof. exact oneof_post_no_panic. Qed.
 Print Assumptions C06_oneof_index_guarded.
+
+(* ------------------------------------------------------------------ typed environments
+   The model's protoreflect accessors are total: msg_mutable and the "existing" list / map reads treat a
+   field holding a value of the wrong shape as absent, where the real Mutable / List / Map would panic
+   ("for all environments" is therefore cheap).  For environments whose property sets write to separate
+   proto paths (env_separate, computable, evaluated on every environment a run dumps from the real
+   reflector; false on the ill-typed witness [a: path [1] int32; b: path [1] object]) the totalised branches
+   are never taken at a member's own field: every member of a run that starts from a fresh message is
+   decoded from a state in which its field is ABSENT, and nested bodies start from an empty sub-message
+   (C03_member_stores_denotation), so this holds at every depth. *)
+Theorem C06_members_decoded_on_absent_fields : forall orc e props d,
+  CodecDecStored.props_separate e props ->
+  forall ms m seen m', CodecDecReorder.orun orc e d props ms m seen m' -> CodecDecDenote.fresh props m seen ->
+  CodecDecDenote.orun_at orc e d props CodecDecDenote.field_absent ms m seen m'.
+Proof. exact CodecDecDenote.run_members_on_absent_fields. Qed.
+Print Assumptions C06_members_decoded_on_absent_fields.
+
+(* with_holder on a path whose field is absent hands the accessor a holder in which the field is absent *)
+Theorem C06_accessor_applied_to_absent_field : forall A (q : list N) (k : N -> msg -> outcome (msg * A)),
+  q <> [] -> forall m m' a, with_holder q m k = Ok (m', a) -> CodecDecStored.get_path q m = None ->
+  exists n h h', k n h = Ok (h', a) /\ CodecDecStored.get_path q m' = msg_get n h' /\ msg_get n h = None.
+Proof. exact (@CodecDecDenote.with_holder_own_fresh). Qed.
+Print Assumptions C06_accessor_applied_to_absent_field.
+
+(* the ill-typed witness of the audit fails the premise *)
+Example C06_example_illtyped_env_excluded :
+  CodecDecTree.env_separate
+    [([78], SObject [mkProp [97] [1] false false [] (FScalar KInt32); mkProp [98] [1] false true [] (FObject [78])])] = false.
+Proof. vm_compute. reflexivity. Qed.
+
+(* ------------------------------------------------------------------ the time clause
+   "in time bounded by the input size" is NOT proved as a step count of the descent.  What is proved:
+   the number of Token() calls and of tokens is at most the number of bytes + 1
+   (C06_fuel_in_bytes, C06_lexer_fuel_never_exhausted), the call depth of the descent is at most the number
+   of tokens + 1 (fuel) and at most the constant 10000 property values (C06_nesting_bounded).  Not proved:
+   a bound on the total number of calls / elementary steps of the descent (it would need an instrumented
+   copy of the model); the run's deadline / timing oracle is the only check of it, and the error path of
+   a deeply nested document is known to be quadratic in the depth (capped by the nesting bound). *)
+Definition C06_time_clause_unproved : Prop := True.
 
 (* non-vacuity: a recursive environment; a document exercising object, array, map, oneof
    (type-only and with a value), null members and a nested recursive value decodes to a
